@@ -56,7 +56,7 @@ def _run_one(cond: Condition, workdir: str, prelude: str):
         cmd += ["--per_path_timeout", str(cond.per_path)]
     cmd.append(path)
     env = dict(os.environ)
-    env["PYTHONPATH"] = "/verif:" + workdir + (":" + env["PYTHONPATH"] if env.get("PYTHONPATH") else "")
+    env["PYTHONPATH"] = os.path.dirname(os.path.dirname(os.path.abspath(__file__))) + ":" + workdir + (":" + env["PYTHONPATH"] if env.get("PYTHONPATH") else "")
     env["ADCGEN_LOG_LEVEL"] = "ERROR"
     t0 = time.time()
     try:
